@@ -193,7 +193,9 @@ func (e *Exchange) IsCacheable(l *log.Logger) bool {
 		return false
 	}
 
-	cacheDirectives := parseCacheControlDirectives(e.ResponseHeaders.Get("Cache-Control"))
+	// Use every Cache-Control field line, joined the same way the header is
+	// serialized (and signed); Header.Get would only see the first line.
+	cacheDirectives := parseCacheControlDirectives(normalizeHeaderValues(e.ResponseHeaders.Values("Cache-Control")))
 
 	// "o  the "no-store" cache directive (see Section 5.2) does not appear
 	//     in request or response header fields, and"
